@@ -1087,8 +1087,10 @@ class ComponentSpecification(experiment.model.interface.InternalRepresentationAt
             existing = [index for index in existing if index is not None]
 
             if not existing:
+                # VV: the error describes (DataReference, path) pairs: name the stdout of this component as a reference
+                reference = DataReference("%s:%s" % (self.identification.identifier, DataReference.Output))
                 raise experiment.model.errors.DataReferenceFilesDoNotExistError(
-                    [(self, search)]
+                    [(reference, search)]
                 )
 
             # VV: There are some stdout streams, so just grab the most recent one
